@@ -7,7 +7,8 @@ ASSUMPTIONS = ['faults that clap itself rejects (unknown option, non-numeric --t
 TRUSTED = []
 
 def corrupt_expr(rnd, e):
-    k = rnd.choice(['trunc', 'unbalanced', 'unknown', 'arity-', 'arity+', 'trailing', 'empty', 'dotdot', 'dotname'])
+    k = rnd.choice(['trunc', 'unbalanced', 'unknown', 'arity-', 'arity+', 'trailing', 'empty', 'dotdot', 'dotname', 'dangling'])
+    if k == 'dangling': return rnd.choice(['.a.', '.arr#', '.a.b.', '(= .a. "x")', '(size .arr#)', '.a..b', '.#', '^.']), k      # a path that ends in (or doubles) its separator names no key / index
     if k == 'dotdot': return rnd.choice(['(..size)', '(..take 1)', '(...keys)', '(..get "a")']), k           # the dot sugar takes ONE dot: `..size` is the unknown function `.size`
     if k == 'dotname': return '(.no_such_function %s)' % e, k
     if k == 'trunc' and len(e) > 2 and e.startswith('('): return e[:rnd.randint(1, len(e) - 1)].rstrip(')') , k
